@@ -34,10 +34,16 @@ type pf struct {
 	arr  bool
 }
 
-func pa(s string) *pf         { return &pf{atom: s} }
-func pl(kids ...*pf) *pf      { return &pf{kids: kids} }
-func parr(kids ...*pf) *pf    { return &pf{kids: kids, arr: true} }
-func (f *pf) isAtom() bool    { return f.kids == nil && f.atom != "" }
+func pa(s string) *pf      { return &pf{atom: s} }
+func pl(kids ...*pf) *pf   { return &pf{kids: kids} }
+func parr(kids ...*pf) *pf { return &pf{kids: kids, arr: true} }
+func (f *pf) isAtom() bool { return f.kids == nil && f.atom != "" }
+func (f *pf) atomOr(d string) *pf {
+	if f.isAtom() {
+		return f
+	}
+	return pa(d)
+}
 func (f *pf) toks(out *[]string) {
 	if f.isAtom() {
 		*out = append(*out, f.atom)
@@ -101,7 +107,7 @@ func genItem(r *lib.Rng, depth int, loops []string, inInit bool) *pf {
 		}
 		return pl(k...)
 	case n < 64:
-		return pl(pa("failk"), genItem(r, depth-1, loops, inInit))
+		return pl(pa("failk"), genItem(r, 0, loops, true).atomOr(fmt.Sprint(r.Intn(10))))
 	case n < 74:
 		k := []*pf{pa("fn"), parr()}
 		for i, m := 0, 1+r.Intn(2); i < m; i++ {
@@ -161,14 +167,17 @@ func exprPaths(f *pf, path []int, out *[][]int) {
 			k := f.kids[i]
 			if k.arr {
 				for j := range k.kids {
+					if j == 1 {
+						continue // the test stays the literal false: the loops of this stream never iterate
+					}
 					exprPaths(k.kids[j], append(append([]int{}, path...), i, j), out)
 				}
 				from = i + 1
 				break
 			}
 		}
-	case "break", "continue":
-		return
+	case "break", "continue", "failk":
+		return // (the argument forms of a call are compiled at run time: outside the phase model)
 	}
 	for i := from; i < len(f.kids); i++ {
 		exprPaths(f.kids[i], append(append([]int{}, path...), i), out)
@@ -191,7 +200,9 @@ var compileFaults = []func() *pf{
 	func() *pf { return pl(pa("def")) },
 	func() *pf { return pl(pa("break"), pa("zzl")) },
 	func() *pf { return pl(pa("continue")) },
-	func() *pf { return pl(pa("for"), parr(pa("0"), pa("false"), pa("0")), pl(pa("fn"), parr(), pl(pa("let"), parr(pa("q")), pa("1")))) },
+	func() *pf {
+		return pl(pa("for"), parr(pa("0"), pa("false"), pa("0")), pl(pa("fn"), parr(), pl(pa("let"), parr(pa("q")), pa("1"))))
+	},
 }
 
 type phText struct {
@@ -273,6 +284,8 @@ func runPhSession(s *phSession) (obs []string) {
 				}
 			}()
 			fired = false
+			zygo.VerifSetBudget(budget)
+			defer zygo.VerifSetBudget(-1)
 			before := len(env.VerifMainFunc().VerifCode())
 			var v zygo.Sexp
 			var err error
@@ -286,6 +299,8 @@ func runPhSession(s *phSession) (obs []string) {
 			switch {
 			case err == nil:
 				return phValue(v)
+			case strings.Contains(err.Error(), zygo.VerifBudgetExhausted):
+				return "BUDGET"
 			case readRejects(t.src):
 				return "R"
 			case len(env.VerifMainFunc().VerifCode()) == before:
@@ -395,7 +410,7 @@ func phRecs(seed uint64, nBase int) []caseRec {
 		}
 		recs = append(recs, caseRec{Prog: 1 << 30, K: s.k, Input: s.input(), Impl: strings.Join(obs, " ;; "),
 			Sources: strings.Join(srcs, " ;; ") + "\t" + strings.Join(roles, "") + "\t" + entry,
-			Tags: []string{s.tag, "phase-stream"}, Nontriv: true})
+			Tags:    []string{s.tag, "phase-stream"}, Nontriv: true})
 	}
 	return recs
 }
